@@ -86,7 +86,7 @@ def emFiltRows (nq : Nat) (percent : NMat α) (emFilt : α) : List Nat :=
 /-- `cbcheck(f, Mcb, Kcb, bseto, bref, uset, uref=…, conv=…, em_filt=…, rb_norm=…, reorder=…)`: the preparation and
 every returned field that needs no dense kernel.  `n` = matrix size, `usetN` = number of uset rows, `u` = x, y, z
 columns of the b-set uset in ascending matrix position, `isCyl`/`isSph` per grid of `u`. -/
-def cbcheckM (n : Nat) (M K : NMat α) (bseto bref0 : List Nat) (usetN : Nat) (u : NMat α)
+def cbcheckWith (memo : Memo α) (n : Nat) (M K : NMat α) (bseto bref0 : List Nat) (usetN : Nat) (u : NMat α)
     (isCyl isSph : Nat → Bool) (uref : URef α) (o : CbOpts α) (twoPi hundred : α) : Except CbErr (CbOut α) :=
   let nb := bseto.length
   if usetN != nb then .error .usetRows else
@@ -102,10 +102,10 @@ def cbcheckM (n : Nat) (M K : NMat α) (bseto bref0 : List Nat) (usetN : Nat) (u
   if !o.reorder && !isAscending bseto then .error .notAscending else
   let pvl := pvList bseto n false
   let rk := usetRank bseto
-  let m2 : NMat α := if o.reorder then reorder m1 (fun i => pvl.getD i 0) else m1
-  let k2 : NMat α := if o.reorder then reorder k1 (fun i => pvl.getD i 0) else k1
+  let m2 : NMat α := (memo n n (if o.reorder then reorder m1 (fun i => pvl.getD i 0) else m1)).get
+  let k2 : NMat α := (memo n n (if o.reorder then reorder k1 (fun i => pvl.getD i 0) else k1)).get
   let usetRows : List Nat := if o.reorder then rk else List.range nb
-  let u2 : NMat α := fun i j => u1 (usetRows.getD i 0) j
+  let u2 : NMat α := (memo nb 3 (fun i j => u1 (usetRows.getD i 0) j)).get
   let gk (g : Nat) : Nat := usetRows.getD (6 * g) 0 / 6
   let bset : List Nat := if o.reorder then List.range nb else bseto
   let bref : List Nat :=
@@ -114,19 +114,24 @@ def cbcheckM (n : Nat) (M K : NMat α) (bseto bref0 : List Nat) (usetN : Nat) (u
   let rbNorm := match o.rbNorm with
     | some b => b
     | none => notContiguous brefB
-  let rbg := rbgeomUset u2 (fun g => isCyl (gk g)) (fun g => isSph (gk g)) urefV
+  let rbg := (memo nb 6 (rbgeomUset u2 (fun g => isCyl (gk g)) (fun g => isSph (gk g)) urefV)).get
   let bs : Nat → Nat := fun i => bset.getD i 0
   let qset := flippv bset n
   let nq := qset.length
   let qf : Nat → Nat := fun i => qset.getD i 0
-  let mqb : NMat α := fun i j => m2 (qf i) (bs j)
-  let mbb : NMat α := fun i j => m2 (bs i) (bs j)
-  let mg := mass6 nb rbg mbb
-  let em := effmass nb mqb rbg
-  let ep := effmassPercent nb mqb rbg mg hundred
+  let mqb : NMat α := (memo nq nb (fun i j => m2 (qf i) (bs j))).get
+  let mbb : NMat α := (memo nb nb (fun i j => m2 (bs i) (bs j))).get
+  let mg := (memo 6 6 (mass6 nb rbg mbb)).get
+  let em := (memo nq 6 (effmass nb mqb rbg)).get
+  let ep := (memo nq 6 (effmassPercent nb mqb rbg mg hundred)).get
   let frq : Nat → α := fun i => sqrt (abs (k2 (qf i) (qf i))) / twoPi
   .ok { m := m2, k := k2, bset, usetRows, u := u2, uref := urefV, rbg, nq, qset, effmass := em, percent := ep, frq,
         bref, brefB, rbNorm, printed := emFiltRows nq ep o.emFilt }
+
+/-- the routine itself (`memo` = identity; the `Float` driver passes a tabulating one) -/
+def cbcheckM (n : Nat) (M K : NMat α) (bseto bref0 : List Nat) (usetN : Nat) (u : NMat α)
+    (isCyl isSph : Nat → Bool) (uref : URef α) (o : CbOpts α) (twoPi hundred : α) : Except CbErr (CbOut α) :=
+  cbcheckWith Memo.id n M K bseto bref0 usetN u isCyl isSph uref o twoPi hundred
 
 end check
 
